@@ -457,7 +457,16 @@ func (g *groupConsumer) manageFailWait(consecutiveErrors int, err error) (ctxCan
 		// onRevoked, but since we are handling this case for
 		// the cooperative consumer we may as well just also
 		// include the eager consumer.
-		g.cfg.onRevoked(g.cl.ctx, g.cl, g.nowAssigned.read())
+		//
+		// What the user owns is what we last told them about
+		// (lastAssigned), which can be more than nowAssigned:
+		// a cooperative or KIP-848 rebalance removes the
+		// partitions we must give up from nowAssigned first
+		// and only revokes them from the user when the next
+		// session begins. If our context is canceled in that
+		// window there is no next session, so we must include
+		// them here or the user never sees them revoked.
+		g.cfg.onRevoked(g.cl.ctx, g.cl, unionAssigned(g.lastAssigned, g.nowAssigned.read()))
 	} else {
 		// Any other error is perceived as a fatal error,
 		// and we go into onLost as appropriate.
@@ -658,6 +667,21 @@ func (g *groupConsumer) leave(ctx context.Context) {
 		}
 		g.leaveErr = kerr.ErrorForCode(resp.ErrorCode)
 	}()
+}
+
+// unionAssigned returns a new map with every topic partition that is in a or b.
+func unionAssigned(a, b map[string][]int32) map[string][]int32 {
+	u := make(map[string][]int32, len(a)+len(b))
+	for _, m := range []map[string][]int32{a, b} {
+		for topic, partitions := range m {
+			for _, partition := range partitions {
+				if !slices.Contains(u[topic], partition) {
+					u[topic] = append(u[topic], partition)
+				}
+			}
+		}
+	}
+	return u
 }
 
 // returns the difference of g.nowAssigned and g.lastAssigned.
